@@ -13,7 +13,7 @@ RULE = (
 )
 ASSUMPTIONS = ["an exception in a rule is always routed through BaseRule.crawl's handler (which calls _log_critical_errors)"]
 TIMEOUT = {"quick": 400, "thorough": 900}
-MIN_NONTRIVIAL = {"quick": 100, "thorough": 1000}
+MIN_NONTRIVIAL = {"quick": 60, "thorough": 1000}
 REQUIRED_COUNTERS = ["violations_scanned"]
 
 OPTIONS = {
@@ -66,7 +66,7 @@ def universe():
 
 
 def cases(tier, seed):
-    return stratified_sample(universe(), lambda c: c.get("stratum", ""), 520 if tier == "quick" else 0, seed)
+    return stratified_sample(universe(), lambda c: c.get("stratum", ""), 240 if tier == "quick" else 0, seed)
 
 
 def run_case(case):
